@@ -13,13 +13,13 @@ TB = " Trusted: the harness's own reference model / generators (/verif/internal/
 
 CHECKS = {
  "C01": dict(cat=E, ref="5/C01", tech="differential runtime monitor: cedar-go evaluator vs independent big-integer reference evaluator over exhaustive operator x boundary tables and random type-directed trees; minimal-subterm localisation",
-   text="Every execution of x/exp/eval.Eval on the generated (expression, store, request) cases is compared with an independent reference evaluator (value-vs-error agreement and value equality). Operator x boundary-operand tables are enumerated completely, random trees to depth 5/7 on top.",
+   text="Every execution of x/exp/eval.Eval on the generated (expression, store, request) cases is compared with an independent reference evaluator (value-vs-error agreement and value equality). Operator x boundary-operand tables are enumerated completely (and once more, each case directly after a failing evaluation at the same operator), random trees to depth 5/7 on top.",
    note="Error kinds are statistics only (the property fixes when evaluation fails, not which message)." + TB),
  "C02": dict(cat=E, ref="5/C02", tech="decision-table oracle over exhaustively enumerated class sequences + random policy sets, through every PolicyIterator form; id/position/message checks on diagnostics",
    text="All sequences of (permit|forbid) x (satisfied|unsatisfied|erroring) policies up to length 4/5, in 3 by-construction realisations each, are authorised through *PolicySet, IsAuthorized, NewPolicySetFromBytes, PolicyMap and two custom iterators and compared with the Cedar decision table (decision, exact reason set, exact error set, each with own id and source position, message equal to the solo run); random policy sets with reference-model outcomes on top.",
    note="Per-policy outcomes of the enumerated part are fixed by construction against a fixed store/request." + TB),
  "C03": dict(cat=E, ref="5/C03", tech="exhaustive small-graph enumeration against a bitmask reachability model, logical step budget on EntityGetter.Get as non-termination witness; operator, set, is-in, scope and batch (partial-evaluation) paths",
-   text="All parent digraphs on <=4 nodes x all presence subsets x all ordered pairs for `a in b`; set targets, `is T in`, every scope form through Authorize and through batch.Authorize (partial evaluation) on all digraphs with <=3 (quick) / 4 (thorough) nodes; random 5-8 node graphs. Nodes carry equal ids under different entity types.",
+   text="All parent digraphs on <=4 nodes x all presence subsets x all ordered pairs for `a in b`; set targets, `is T in`, every scope form through Authorize and through batch.Authorize (partial evaluation) on all digraphs with <=3 (quick) / 4 (thorough) nodes; random 5-8 node graphs. Nodes carry equal ids under different entity types. On the <=3-node graphs the operator forms are also decided inside when-clauses through cedar.Authorize (compiled, constant-folded path) and every set query is repeated directly after a membership test that failed with a type error.",
    note="Non-termination is decided by a logical budget of 64(n+1)^2 Get calls, no clock." + TB),
  "C04": dict(cat=E, ref="5/C04", tech="differential monitor: compiled (folded) policy via Authorize vs direct evaluation of the original tree vs hook-exposed folded AST, in 8 environments per policy incl. the empty store; AST/text/JSON fingerprints before/after; type-confused twin compiled after its original",
    text="For generated policies biased to what the folder touches (closed, closed-erroring, short-circuit with skipped or evaluated ill-typed operands, absorbing constants on the right, store-dependent constants, reflexive membership) the outcome class of the compiled policy equals direct evaluation in every environment; the caller's AST and its renderings are unchanged.",
@@ -31,13 +31,13 @@ CHECKS = {
    text="For generated policies x partial environments (unknown request parts, unknowns nested in context records/sets, ignored parts) every completion from a policy-derived universe (<=64 each) is checked: kept residual equivalent, dropped policy unsatisfiable, ignored parts only widen permits. A directed stream enumerates 11+ strict node shapes x operand orders x effect x when/unless x unknown/ignored modes.",
    note="Residuals are run by cedar-go's ordinary evaluator (they contain its partial-error nodes); the original's outcome comes from the reference model and is cross-checked." + TB),
  "C07": dict(cat=E, ref="5/C07", tech="parse(render(T)) == T with an independent grammar-driven printer (full / minimal parentheses / layout noise), exhaustive parent x child x position operator triples, reject list",
-   text="ASTs built from harness terms are printed by an independent printer in three renderings and must parse to exactly that AST; every operator pairing in every operand position is enumerated; texts outside the grammar must be rejected.",
+   text="ASTs built from harness terms are printed by an independent printer in three renderings and must parse to exactly that AST; every operator pairing in every operand position is enumerated; texts outside the grammar must be rejected (incl. each reserved word in each of 20 identifier positions); 1200-fold flat repetitions of 18 templates (documents, policy sets, decoder streams, set/record/&&/when-clause lists) must parse, repetition by repetition, to the template's own tree.",
    note="Only texts whose grammar-prescribed tree is beyond dispute are emitted (DESIGN section 10)." + TB),
  "C08": dict(cat=E, ref="5/C08", tech="round-trip monitor MarshalCedar -> UnmarshalCedar -> MarshalCedar with semantic comparison under >=6 environments and byte-identity of the second rendering; list/set/encoder order",
-   text="Policies from three sources (programmatic ASTs with arbitrary values, parsed texts, decoded JSON) must re-parse, keep effect/annotations/scope, evaluate identically and re-render byte-identically; lists, sets and Encoder/Decoder keep documented order.",
+   text="Policies from three sources (programmatic ASTs with arbitrary values, parsed texts, decoded JSON) must re-parse, keep effect/annotations/scope, evaluate identically and re-render byte-identically; lists, sets and Encoder/Decoder keep documented order. Directed: every value under every parent, all two-level nestings of 43 node constructors, regrouping-sensitive operator pairs, every string class in every string position, and 0.3-10 KiB renderings of 1-4-byte characters at every alignment to the tokenizer's read buffer.",
    note="Meaning is compared by evaluation (value or failure) in environments derived from the policy." + TB),
  "C09": dict(cat=E, ref="5/C09", tech="AST-equality round trip through the JSON codec, independent spec-conformant JSON encoder as second source, text<->JSON commuting squares, authorization agreement",
-   text="decode(encode(p)) has the identical AST; policy-set ids are preserved; text->JSON->text and JSON->text->JSON commute; an independent JSON encoder's documents decode to the builder AST; all encodings authorize identically.",
+   text="decode(encode(p)) has the identical AST; policy-set ids are preserved (decoding into a zero, a fresh and an already used PolicySet yields exactly the document); text->JSON->text and JSON->text->JSON commute; an independent JSON encoder's documents decode to the builder AST; all encodings authorize identically.",
    note="Extension-typed literal values are compared modulo the documented value<->constructor-call spelling." + TB),
  "C10": dict(cat=F, ref="5/C10", tech="hostile-input monitor in journalled child processes: observed outcome of every decoder in {value, error, panic, fatal crash, timeout}; structural JSON mutation, byte mutation, deep nesting; accepted values pushed through every encoder and the authorizer",
    text="Every decoder is fed corpus documents, generated valid documents and their mutations (byte-level, token-level, JSON structural: every sub-tree replaced by null/[]/{}/\"\"/0, keys deleted), arbitrary bytes and deep nesting; only value or error are allowed; every accepted value goes through every encoder and Authorize.",
@@ -67,7 +67,7 @@ CHECKS = {
    text="Token streams and policy streams are identical under every reader schedule; a failing reader yields an error and no truncated policy; offset/line/column of every policy equal the generator's record and appear in diagnostics.",
    note="Documents are assembled so that tokens straddle the 1024-byte buffer boundary." + TB),
  "C19": dict(cat=E, ref="5/C19", tech="Go race detector over barrier-released goroutine rounds on fresh shared objects + per-call solo-result comparison + reflection fingerprints of inputs before/after every read-only operation",
-   text="Zero race reports over 150/3000 rounds of 16-64 goroutines mixing Authorize, batch.Authorize, marshalling, accessors and validation on shared inputs; every concurrent call returns its solo result; inputs (incl. unexported evaluator trees) are unchanged.",
+   text="Zero race reports over 150/3000 rounds of 16-64 goroutines mixing Authorize, batch.Authorize, marshalling, accessors and validation on shared inputs; every concurrent call returns its solo result; inputs (policies incl. unexported evaluator trees, ASTs, entities, requests, values, schema; the Validator receivers are not inputs) are unchanged. Each world holds random policies plus text-loaded policies written against a schema with a three-level action hierarchy.",
    note="Race reports are process-external evidence (log files of a -race child)." + TB),
  "C20": dict(cat=E, ref="5/C20", tech="model-based history checking: an executable id->policy map stepped alongside PolicySet operations with authorization probes and marshal/unmarshal round trips spliced in; exhaustive short histories + random long ones",
    text="Every operation returns what the map model predicts after any history; authorization depends only on current contents; loader ids policy0.. with file name in every position; MarshalCedar in lexicographic id order; Map() copies independent.",
